@@ -47,11 +47,18 @@ var errC10Cancel = errors.New("c10: caller cancelled")
 var errC10Get = errors.New("c10: get failed")
 
 type c10Err struct {
-	addr   int
-	client bool
+	addr    int
+	client  bool
+	wrapped error // optional: context.Canceled / context.DeadlineExceeded (the BATCH context is a different one)
 }
 
-func (e *c10Err) Error() string { return "c10 replica error " + strconv.Itoa(e.addr) }
+func (e *c10Err) Error() string {
+	if e.wrapped != nil {
+		return "c10 replica error " + strconv.Itoa(e.addr) + ": " + e.wrapped.Error()
+	}
+	return "c10 replica error " + strconv.Itoa(e.addr)
+}
+func (e *c10Err) Unwrap() error { return e.wrapped }
 
 // ---- ring under test ------------------------------------------------------------------------
 
@@ -120,6 +127,7 @@ type c10Case struct {
 	cancelAt int // -1 none; 0 = cancelled before the call; >0 = inside that Get call (fake ring only)
 	sets     []c10Set
 	outcomes map[int]byte // addr -> 'o' | 'c' | 's'
+	wrap     map[int]byte // addr -> 0 | 'C' | 'D': the replica's error wraps context.Canceled / context.DeadlineExceeded
 	plan     [][]int      // batches of addrs; {-1} = cancel
 	ringInfo string
 	getErrs  map[string]bool // texts of the errors the real ring's Get returned to the harness itself
@@ -176,6 +184,9 @@ func (c *c10Case) encOutcomes() string {
 	ps := make([]string, len(as))
 	for i, a := range as {
 		ps[i] = strconv.Itoa(a) + ":" + string(c.outcomes[a])
+		if w := c.wrap[a]; w != 0 && c.outcomes[a] != 'o' {
+			ps[i] += string(w)
+		}
 	}
 	return strings.Join(ps, ",")
 }
@@ -278,16 +289,28 @@ func c10Run(c *c10Case) (string, string) {
 	errs := map[int]error{}
 	for _, a := range addrs {
 		gates[a] = make(chan struct{})
+		var inner error
+		switch c.wrap[a] {
+		case 'C':
+			inner = context.Canceled
+		case 'D':
+			inner = context.DeadlineExceeded
+		}
 		switch c.outcomes[a] {
 		case 'c':
 			if c.cls == "custom" {
-				errs[a] = &c10Err{addr: a, client: true}
+				errs[a] = &c10Err{addr: a, client: true, wrapped: inner}
+			} else if inner != nil {
+				errs[a] = fmt.Errorf("c10 replica %d: %w: %w", a, httpgrpc.Errorf(400+a%30, "rejected"), inner)
 			} else {
 				errs[a] = httpgrpc.Errorf(400+a%30, "c10 replica %d", a)
 			}
 		case 's':
 			if c.cls == "custom" {
-				errs[a] = &c10Err{addr: a, client: false}
+				errs[a] = &c10Err{addr: a, client: false, wrapped: inner}
+			} else if inner != nil {
+				// no grpc status at all: the default classifier files it under the server family
+				errs[a] = fmt.Errorf("c10 replica %d interrupted: %w", a, inner)
 			} else {
 				errs[a] = httpgrpc.Errorf(500+a%12, "c10 replica %d", a)
 			}
@@ -610,7 +633,7 @@ func c10Run(c *c10Case) (string, string) {
 func c10ModeString(c *c10Case) string { return c.spawn + "." + c.cls + "." + c.api }
 
 func c10FakeCase(sets []c10Set, icount, rf int) *c10Case {
-	c := &c10Case{spawn: "wrap", cls: "custom", api: "opt", icount: icount, cancelAt: -1, sets: sets, ringInfo: "fake/rf" + strconv.Itoa(rf), outcomes: map[int]byte{}}
+	c := &c10Case{spawn: "wrap", cls: "custom", api: "opt", icount: icount, cancelAt: -1, sets: sets, ringInfo: "fake/rf" + strconv.Itoa(rf), outcomes: map[int]byte{}, wrap: map[int]byte{}}
 	c.keys = make([]uint32, len(sets))
 	for i := range sets {
 		c.keys[i] = uint32(i)
@@ -714,6 +737,9 @@ func c10RandOutcomes(r *rng, c *c10Case) {
 			o = pick(r, []byte{'o', fam})
 		}
 		c.outcomes[a] = o
+		if o != 'o' && r.chance(1, 4) {
+			c.wrap[a] = pick(r, []byte{'C', 'D'})
+		}
 	}
 }
 
@@ -784,7 +810,7 @@ func c10RealCase(r *rng, now int64) *c10Case {
 			keys[i] = pick(r, boundaryTokens)
 		}
 	}
-	c := &c10Case{icount: rg.InstancesCount(), cancelAt: -1, outcomes: map[int]byte{}, keys: keys}
+	c := &c10Case{icount: rg.InstancesCount(), cancelAt: -1, outcomes: map[int]byte{}, wrap: map[int]byte{}, keys: keys}
 	for _, k := range keys {
 		rs, err := rg.Get(k, ring.Write, nil, nil, nil)
 		if err != nil {
@@ -960,6 +986,49 @@ func runC10(e *env) {
 					c10BoundDefault(c)
 					add(c)
 				}
+			}
+		}
+	}
+
+	// (2b) exhaustive over {ok, server error wrapping context.Canceled, client error wrapping
+	// context.DeadlineExceeded} x completion orders, batch context NOT cancelled: an interrupted replica
+	// call is a failure, never an acknowledgement
+	for si, sh := range shapes {
+		if si == 4 || si == 5 || si > 8 {
+			continue
+		}
+		tmp := c10FakeCase(sh.sets, 6, 3)
+		as := tmp.addrs()
+		nOut := 1
+		for range as {
+			nOut *= 3
+		}
+		for oc := 0; oc < nOut; oc++ {
+			for _, p := range c10Perms(as) {
+				c := c10FakeCase(sh.sets, 6, 3)
+				v := oc
+				for _, a := range as {
+					switch v % 3 {
+					case 0:
+						c.outcomes[a] = 'o'
+					case 1:
+						c.outcomes[a], c.wrap[a] = 's', 'C'
+					default:
+						c.outcomes[a], c.wrap[a] = 'c', 'D'
+					}
+					v /= 3
+				}
+				c.plan = c10Singletons(p, -1)
+				switch modeRng.intn(6) {
+				case 0:
+					c.spawn = pick(modeRng, []string{"default", "inline", "pool1", "pool2"})
+				case 1:
+					c.cls = "http"
+				case 2:
+					c.spawn, c.cls, c.api = "default", "http", "dobatch"
+				}
+				c10BoundDefault(c)
+				add(c)
 			}
 		}
 	}
